@@ -99,6 +99,7 @@ type world struct {
 type opts struct {
 	txPropDelay time.Duration   // delay of proposal reads inside the transaction controller
 	faultIndex  configapi.Index // GetByIndex(faultIndex) fails once inside the transaction controller
+	noProposal  bool            // the proposal controller is not running (the process dies before it handles a new proposal)
 }
 
 func newWorld(o opts) *world {
@@ -138,8 +139,10 @@ func (w *world) start(o opts) {
 	w.ctls = []*controller.Controller{
 		connection.NewController(e.Topo, e.Conns), mstctl.NewController(e.Topo, e.Cfgs),
 		cfgctl.NewController(e.Topo, e.Conns, e.Cfgs),
-		propctl.NewController(e.Topo, e.Conns, &cntProps{Store: e.Props, gets: &w.gets}, e.Cfgs, e.Registry),
 		txctl.NewController(txs, &cntProps{Store: e.Props, gets: &w.gets, delay: o.txPropDelay}),
+	}
+	if !o.noProposal {
+		w.ctls = append(w.ctls, propctl.NewController(e.Topo, e.Conns, &cntProps{Store: e.Props, gets: &w.gets}, e.Cfgs, e.Registry))
 	}
 	for _, c := range w.ctls {
 		if err := c.Start(); err != nil {
@@ -575,6 +578,21 @@ var scenarios = []scenario{
 		w.quiet(qd/2, 5*qd)
 		w.change(false, "t1", "c")
 		w.judge(seed, "restart_pending", qd)
+	}},
+	// restart_proposal_created: the process dies right after the transaction controller created the proposals of a Set and
+	// before the proposal controller wrote anything for them (here: the proposal controller is not running in the first
+	// life); the fresh controllers learn of the proposals only through the replay of the proposal store
+	{"restart_proposal_created", func(seed int64, r *rand.Rand, qd time.Duration) {
+		w := newWorld(opts{noProposal: true})
+		defer w.stop()
+		w.target("t1", false)
+		w.connect("t1")
+		w.change(false, "t1", "a")
+		w.quiet(qd/2, 5*qd)
+		w.restart(opts{}, nil)
+		w.quiet(qd/2, 5*qd)
+		w.change(false, "t1", "b")
+		w.judge(seed, "restart_proposal_created", qd)
 	}},
 	// restart_applied (control): a restart after everything has been applied, then a Set
 	{"restart_applied", func(seed int64, r *rand.Rand, qd time.Duration) {
